@@ -471,7 +471,11 @@ def check(run: Run) -> None:
         fa = R.fn(run, "src/hgraph/runtime/mesh_node.cpp", "MeshNodeView::add_dependency")
         roles = [Role("SAME", "bool", r"key\.equals\(depends_on\)"), Role("KNULL", "bool", r"(key_entry|.*find\(key\))==nullptr"),
                  Role("DNULL", "bool", r"(dep_entry|.*find\(depends_on\))==nullptr"), Role("KR", "t", r"(key_entry|.*find\(key\))->rank"),
-                 Role("DR", "t", r"(dep_entry|.*find\(depends_on\))->rank")]
+                 Role("DR", "t", r"(dep_entry|.*find\(depends_on\))->rank"),
+                 Role("SETTLED", "t", r"(dep_entry|.*find\(depends_on\))->settled_time", required=False), Role("T", "t", r"view_\.graph\(\)\.evaluation_time\(\)", required=False),
+                 Role("PAUSED", "bool", r"(dep_entry|.*find\(depends_on\))->paused", required=False),
+                 Role("HASG", "bool", r"(dep_entry|.*find\(depends_on\))->graph\.has_value\(\)", required=False),
+                 Role("NEXT", "t", r"(dep_entry|.*find\(depends_on\))->graph\.view\(\)\.next_scheduled_time\(\)", required=False)]
 
         def spec_dep(v):
             if v.b("SAME"):
@@ -482,7 +486,13 @@ def check(run: Run) -> None:
                 return Expect(calls=[("CREATE", ("anyargs",)), ("RERANK", ("anyargs",))], ret=False)
             if v.le("KR", "DR"):
                 return Expect(calls=[("RERANK", ("anyargs",))], ret=False)
-            return Expect(calls=[], ret="unchecked")
+            # availability of a dependency ranked below the requester: settled this cycle, or idle - never while it is PAUSED (a paused child's
+            # next_scheduled_time was reset mid-scan, so `idle` would be read from a stale value) or has no graph
+            if v.eq("SETTLED", "T"):
+                return Expect(calls=[], ret=True)
+            if v.b("PAUSED") or not v.b("HASG"):
+                return Expect(calls=[], ret=False)
+            return Expect(calls=[], ret=v.gt("NEXT", "T"))
         R.k1(run, "C01.h", fa, roles, spec_dep, role_calls={"CREATE": r"create_instance", "RERANK": r"re_rank"}, what="mesh add_dependency")
 
     with run.obligation("C01.i", "K4+K1", "an input without a rank dependency lets its consumer be ranked before its producer, so it may be created only where the design "
@@ -572,8 +582,26 @@ def check(run: Run) -> None:
         from . import c06
         R.share(run, "C01.j", c06, ["C06.a"])
 
+    with run.obligation("C01.k", "K2", "mesh_ subscribe: reading another instance's output is ALWAYS preceded by the availability gate in the same evaluation - every path that "
+                        "binds / publishes self[item] passes through add_dependency (the gate that makes a reader wait for a producer that is due but has not run yet), "
+                        "also when the dependency is unchanged since the last cycle, and its `false` answer pauses the reader"):
+        MESH = "src/hgraph/runtime/mesh_node.cpp"
+        fa = R.fn(run, MESH, "mesh_subscribe_evaluate_impl")
+        fl = R.flow(run, fa)
+        gate = R.call_is(name="add_dependency")
+        reads = R.either(R.call_is(name="publish_subscribe_source"), R.call_is(name="bind_input_to_source"))
+        R.k2_precede(run, "C01.k", fl, gate, reads, "mesh subscribe: add_dependency gate before the dependency's output is bound / published")
+        cn = R.aliases_of(fa)
+        gates = [s0 for s0 in fa.body.walk() if isinstance(s0, C.If) and "add_dependency(" in cn(s0.cond) and cn(s0.cond).replace(" ", "").startswith("!")]
+        run.count(1, "C01.k.pause")
+        if not gates or not all([cn(r.e) for r in R.find(g.then, lambda x: isinstance(x, C.Return))] == ["false"] for g in gates):
+            run.finding("C01.k", "mesh_subscribe_evaluate_impl:gate-does-not-pause", "a dependency that is not available must pause the reader (`if (!add_dependency(..)) return false;`)",
+                        loc=fa.loc(fa.body))
+
 
 VARIANTS = [
+    {"id": "k-seed-C01-8-gate-only-when-dependency-changed", "expect": "C01.k", "edits": [{"file": "src/hgraph/runtime/mesh_node.cpp", "find": "    storage.has_dependency = true;\n  }\n\n  // Register the dependency (creating / ranking the target on demand). If the\n  // target is not yet available this cycle, PAUSE: the mesh resolves it in rank\n  // order and re-evaluates this instance to resume from here.\n  if (!mesh->add_dependency(my_key, item.view())) {\n    return false;\n  }", "replace": "    storage.has_dependency = true;\n    if (!mesh->add_dependency(my_key, item.view())) {\n      return false;\n    }\n  }"}]},
+    {"id": "h-seed-C01-7-paused-dependency-reads-as-idle", "expect": "C01.h", "edits": [{"file": "src/hgraph/runtime/mesh_node.cpp", "find": "  if (dep_entry->paused || !dep_entry->graph.has_value()) {\n    return false;\n  }\n  return dep_entry->graph.view().next_scheduled_time() > t;", "replace": "  if (!dep_entry->graph.has_value()) {\n    return false;\n  }\n  return dep_entry->graph.view().next_scheduled_time() > t;"}]},
     {"id": "j-seed-C01-5-rank-free-flag-not-in-key", "expect": "C01.j", "edits": [{"file": WIRING, "find": "        .rank_dependency = input.rank_dependency,\n        .passive = input.source.arg_tag", "replace": "        .passive = input.source.arg_tag"}]},
     {"id": "i-pass-through-args-rank-free", "expect": "C01.i", "edits": [{"file": "include/hgraph/lib/std/operators/impl/higher_order_impl.h", "find": "                        inputs[index].arg_tag != WiringPortRef::ArgTag::Passive ||", "replace": "                        inputs[index].arg_tag == WiringPortRef::ArgTag::None ||"}]},
     {"id": "i-new-rank-free-site", "expect": "C01.i", "edits": [{"file": "include/hgraph/lib/std/operators/impl/higher_order_impl.h", "find": "                refs.push_back(WiringInputRef{\n                    .source = inputs[index],", "replace": "                if (index == 1) { refs.push_back(WiringInputRef{.source = inputs[index], .rank_dependency = false}); continue; }\n                refs.push_back(WiringInputRef{\n                    .source = inputs[index],"}]},
